@@ -16,23 +16,7 @@ pub struct RandomParams {
     pub seed: u64,
 }
 
-/// Decodes a raw generated triple into an op of the world (monotone maps so shrinking works).
-pub fn decode_op(specs: &[OpSpec], total_weight: u32, raw: (u16, u8, u8)) -> Op {
-    let mut pick = (raw.0 as u64 * total_weight as u64) >> 16;
-    let mut code = 0usize;
-    for (i, s) in specs.iter().enumerate() {
-        if pick < s.weight as u64 {
-            code = i;
-            break;
-        }
-        pick -= s.weight as u64;
-        code = i;
-    }
-    let s = &specs[code];
-    let a = if s.an == 0 { 0 } else { ((raw.1 as u32 * s.an as u32) >> 8) as u8 };
-    let b = if s.bn == 0 { 0 } else { ((raw.2 as u32 * s.bn as u32) >> 8) as u8 };
-    Op { code: code as u8, a, b }
-}
+pub use crate::common::decode_op;
 
 fn mix(seed: u64, world: u8, cfg: &Cfg, worker: u64) -> u64 {
     let mut h = H128::new();
@@ -85,7 +69,7 @@ fn one_task(world: &dyn World, prop: &'static str, cfg: &Cfg, worker: u64, cases
     let sample_budget = Cell::new(if worker == 0 { 2u32 } else { 0 });
     let result = runner.run(&strategy, |raw| {
         let ops: Vec<Op> = raw.iter().map(|r| decode_op(&specs, total, *r)).collect();
-        let mut run = Run::new();
+        let mut run = Run::for_prop(prop);
         run.allow_probe = allow_probe;
         world.run(cfg, &ops, &mut run);
         if !failed.get() {
@@ -109,7 +93,7 @@ fn one_task(world: &dyn World, prop: &'static str, cfg: &Cfg, worker: u64, cases
         Err(TestError::Fail(_, raw)) => {
             let ops: Vec<Op> = raw.iter().map(|r| decode_op(&specs, total, *r)).collect();
             let ops = minimise(world, prop, cfg, ops, allow_probe);
-            let mut run = Run::new();
+            let mut run = Run::for_prop(prop);
             run.allow_probe = allow_probe;
             world.run(cfg, &ops, &mut run);
             run.violation.clone().filter(|v| v.is(prop)).map(|violation| Failure { world: world.name(), cfg: *cfg, ops, violation, driver: "random" })
@@ -121,9 +105,9 @@ fn one_task(world: &dyn World, prop: &'static str, cfg: &Cfg, worker: u64, cases
 
 /// Greedy post-shrink: remove single ops while the same property still fails (proptest's vec
 /// shrinking is good but bounded by `max_shrink_iters`).
-pub fn minimise(world: &dyn World, prop: &str, cfg: &Cfg, mut ops: Vec<Op>, allow_probe: bool) -> Vec<Op> {
+pub fn minimise(world: &dyn World, prop: &'static str, cfg: &Cfg, mut ops: Vec<Op>, allow_probe: bool) -> Vec<Op> {
     let fails = |ops: &[Op]| {
-        let mut run = Run::new();
+        let mut run = Run::for_prop(prop);
         run.allow_probe = allow_probe;
         world.run(cfg, ops, &mut run);
         matches!(&run.violation, Some(v) if v.is(prop))
@@ -133,7 +117,7 @@ pub fn minimise(world: &dyn World, prop: &str, cfg: &Cfg, mut ops: Vec<Op>, allo
     }
     // truncate after the violating step
     {
-        let mut run = Run::new();
+        let mut run = Run::for_prop(prop);
         run.allow_probe = allow_probe;
         world.run(cfg, &ops, &mut run);
         if let Some(v) = &run.violation {
